@@ -81,7 +81,8 @@ def _summarise(traces, verd, keep):
 
 def _g_shard(args):
     """Worker: parse a byte range of the TLC state dump, render / record / validate its well-formed programs."""
-    path, lo, hi, seed, shard, limit = args
+    path, lo, hi, seed, shard, limit, deadline = args
+    import time
     from harness import c16_scope as H, tlc
     tlc._SCRATCH = None  # forked from the parent: use an own scratch directory (cleanup() must not remove the parent's)
     FST, filt = _fst(), _filt()
@@ -94,40 +95,52 @@ def _g_shard(args):
     if not mine:
         return {'n': 0, 'states': 0, 'wf': 0, 'evals': 0, 'clauses': {}, 'bad': [], 'tlc': [], 'classes': [], 'samples': []}
     nxt = {s: e for s, e in zip(starts, starts[1:] + [len(text)])}
-    progs = []
-    nstates = 0
-    for s in mine:
-        block = text[s:nxt[s]]
-        parts = re.split(r'^(?:/\\ )?([A-Za-z_][A-Za-z_0-9]*) = ', block, flags=re.M)
-        st = {parts[k]: H.parse_tla(parts[k + 1]) for k in range(1, len(parts), 2)}
-        nstates += 1
-        if st.get('wf'):
-            progs.append(_strip(st['prog']))
-    nwf = len(progs)
-    if limit is not None and len(progs) > limit:
-        progs = random.Random(seed * 1000 + shard).sample(progs, limit)
-    traces, classes = [], set()
-    for k, P in enumerate(progs, 1):
-        var = _variant(P, seed)
-        tr = H.record_program(P, var, FST, filt)
-        tr.update(id=shard * 10000000 + k, mode='prog', variant=var)
-        traces.append(tr)
-        for i in range(1, len(P['st']) + 1):
-            classes.add(site_class(P, i))
-    res = {'n': 0, 'states': nstates, 'wf': nwf, 'evals': 0, 'clauses': {}, 'bad': [], 'tlc': [], 'classes': sorted(classes),
-           'samples': [{'program': t['P'], 'source': t['src']} for t in traces[:1]]}
-    CH = 6000
-    for a in range(0, len(traces), CH):
-        chunk = traces[a:a + CH]
-        verd, st = _validate([{k: v for k, v in t.items() if k not in ('src', 'variant')} for t in chunk])
-        part = _summarise(chunk, verd, lambda t: {'mode': 'prog', 'P': t['P'], 'variant': t['variant'], 'source': t['src'],
-                                                  'steps': t['steps']})
+    rng = random.Random(seed * 1000 + shard)
+    res = {'n': 0, 'states': 0, 'wf': 0, 'evals': 0, 'clauses': {}, 'bad': [], 'tlc': [], 'classes': [], 'samples': []}
+    classes = set()
+    CH = 5000
+
+    def flush(traces):
+        if not traces:
+            return
+        verd, st = _validate([{k: v for k, v in t.items() if k not in ('src', 'variant')} for t in traces])
+        part = _summarise(traces, verd, lambda t: {'mode': 'prog', 'P': t['P'], 'variant': t['variant'], 'source': t['src'],
+                                                   'steps': t['steps']})
         res['n'] += part['n']
         res['evals'] += part['evals']
         for c, n in part['clauses'].items():
             res['clauses'][c] = res['clauses'].get(c, 0) + n
-        res['bad'] += part['bad']
+        res['bad'] += part['bad'][:400]  # enough to report; the counters above stay exact
         res['tlc'].append(st)
+
+    traces = []
+    for s in mine:  # streaming: nothing but the current chunk is kept in memory
+        block = text[s:nxt[s]]
+        parts = re.split(r'^(?:/\\ )?([A-Za-z_][A-Za-z_0-9]*) = ', block, flags=re.M)
+        st = {parts[k]: H.parse_tla(parts[k + 1]) for k in range(1, len(parts), 2)}
+        res['states'] += 1
+        if not st.get('wf'):
+            continue
+        res['wf'] += 1
+        if deadline is not None and time.time() > deadline:
+            res['truncated'] = res.get('truncated', 0) + 1  # out of budget: counted, not judged
+            continue
+        if limit is not None and rng.random() >= limit:
+            continue
+        P = _strip(st['prog'])
+        var = _variant(P, seed)
+        tr = H.record_program(P, var, FST, filt)
+        tr.update(id=shard * 10000000 + res['wf'], mode='prog', variant=var)
+        if not res['samples']:
+            res['samples'].append({'program': tr['P'], 'source': tr['src']})
+        traces.append(tr)
+        for i in range(1, len(P['st']) + 1):
+            classes.add(site_class(P, i))
+        if len(traces) >= CH:
+            flush(traces)
+            traces = []
+    flush(traces)
+    res['classes'] = sorted(classes)
     tlc.cleanup()
     return res
 
@@ -217,6 +230,11 @@ def corpus_items(ctx):
         files = rng.sample(small, min(4, len(small)))
     else:
         files += sorted(glob.glob('/repo/tests/*.py'))
+        import sysconfig
+        lib = sysconfig.get_paths()['stdlib']
+        std = sorted(p for p in glob.glob(lib + '/*.py') + glob.glob(lib + '/*/*.py')
+                     if os.path.getsize(p) < 150000 and '/test' not in p and 'site-packages' not in p and '/idlelib/' not in p)
+        files += random.Random(ctx.seed * 17 + 3).sample(std, min(80, len(std)))
     for p in files:
         try:
             with open(p, encoding='utf-8') as f:
@@ -244,20 +262,21 @@ def run(ctx):
     cfg = 'ScopeMC' if ctx.quick else 'ScopeMC_thorough'
     dump = os.path.join(tlc.scratch(), 'scope')
     r = ctx.model('ScopeMC', cfg, required=('DoAddName', 'DoAddExprScope', 'DoAddDef'), extra=['-dump', dump],
-                  heap='8g', timeout=3000)
+                  heap='2g' if ctx.quick else '6g', timeout=3000)
     path = dump + '.dump'
     if not os.path.exists(path):
         raise common.Machinery('TLC wrote no state dump')
     size = os.path.getsize(path)
     nsh = 12 if size > (4 << 20) else 4
     bounds = [size * k // nsh for k in range(nsh + 1)]
-    g_args = [(path, bounds[k], bounds[k + 1], ctx.seed, k + 1, None) for k in range(nsh)]
+    import time
+    deadline = ctx.t0 + (1500 if ctx.quick else 780)  # thorough: stop rendering new programs 13 min after the start
+    g_args = [(path, bounds[k], bounds[k + 1], ctx.seed, k + 1, None, deadline) for k in range(nsh)]
     items = corpus_items(ctx)
     # big files first so that the pool stays busy
     items.sort(key=lambda it: -len(it[1]))
     nv = 6 if ctx.quick else 14
     v_args = [(items[k::nv], 50 + k, ctx.seed) for k in range(nv) if items[k::nv]]
-    import time
     t1 = time.time()
     with mp.get_context('fork').Pool(8 if ctx.quick else 12) as pool:
         vres = pool.map_async(_v_shard, v_args, chunksize=1)
@@ -283,7 +302,9 @@ def run(ctx):
                       'validated': sum(x['n'] for x in gres)}
     ctx.extra['V'] = {'programs': sum(x['n'] for x in vres), 'skipped_not_compilable': sum(x['skipped'] for x in vres),
                       'ast_nodes': sum(x['nodes'] for x in vres), 'tables_matched': sum(x['scopes'] for x in vres)}
-    ctx.exhaustive = True
+    ntrunc = sum(x.get('truncated', 0) for x in gres)
+    ctx.extra['G']['not_judged_out_of_time_budget'] = ntrunc
+    ctx.exhaustive = ntrunc == 0
     for x in gres + vres:
         _report(ctx, x)
     ctx.require_clauses(G_CLAUSES + V_CLAUSES)
